@@ -340,3 +340,44 @@ def run(ctx):
     thr_d = [strip_casts(n.c[0].c[1]).v for n in gi.walk() if n.k == "IfStmt" and n.c[0].k == "BinaryOperator" and n.c[0].op == "=="]
     rep.check(thr_e[:1] == [255] and thr_d == [255], "D4-CODEC", "orc/orcbytecode.c::bytecode_append_int", "threshold",
               "escape threshold 255 on both sides", "escape thresholds differ: encoder %s decoder %s" % (thr_e, thr_d))
+
+    # ---- D4b: every byte is widened before it is shifted into place ------------
+    # `get_byte() << k` is computed in the promoted type of its left operand.  If that type is narrower than the
+    # accumulator and signed, a set bit 7 of the byte at k == bits-8 makes the term negative and the conversion to the
+    # accumulator sign-extends it (all higher bytes become 0xff); if k + 8 exceeds the type's width, bits are lost.
+    INT_TYPES = {"int": (32, True), "unsigned int": (32, False), "orc_uint32": (32, False), "orc_int32": (32, True),
+                 "orc_uint64": (64, False), "orc_int64": (64, True), "unsigned long": (64, False), "long": (64, True),
+                 "unsigned long long": (64, False), "long long": (64, True), "orc_uint8": (8, False), "orc_uint16": (16, False),
+                 "unsigned char": (8, False), "unsigned short": (16, False)}
+    nshift = 0
+    for fname in ("orc_bytecode_parse_get_int", "orc_bytecode_parse_get_uint32", "orc_bytecode_parse_get_uint64"):
+        f = db.func(fname, "orcbytecode")
+        for n in f.walk():
+            if not (n.k == "BinaryOperator" and n.op == "<<"):
+                continue
+            if not any(x.k == "CallExpr" and x.name == "orc_bytecode_parse_get_byte" for x in n.c[0].walk()):
+                continue
+            k = strip_casts(n.c[1]).v
+            st = INT_TYPES.get(n.get("ty"))
+            # accumulator: the assignment this term is OR-ed / stored into
+            p_ = n.parent
+            while p_ is not None and p_.k not in ("CompoundAssignOperator", "BinaryOperator", "ReturnStmt", "VarDecl") or (p_ is not None and p_.k == "BinaryOperator" and p_.op not in ("=",)):
+                p_ = p_.parent
+            if p_ is None or k is None:
+                raise AnalysisBroken("%s: shift term without constant amount / accumulator" % fname)
+            tt = INT_TYPES.get(p_.c[0].get("ty") if p_.k != "ReturnStmt" else None)
+            if st is None or tt is None:
+                raise AnalysisBroken("%s: unknown integer type %r / %r in shift term" % (fname, n.get("ty"), p_.c[0].get("ty")))
+            nshift += 1
+            lost = k + 8 > st[0]
+            sext = st[1] and k + 8 > st[0] - 1 and tt[0] > st[0]
+            rep.check(not lost and not sext, "D4-CODEC", where(f), "widen-before-shift<<%d" % k,
+                      "byte shifted by %d in %s, accumulated in %s: no bits lost, no sign extension" % (k, n.get("ty"), p_.c[0].get("ty")),
+                      "byte << %d is computed in `%s` and accumulated in `%s`: %s" % (
+                          k, n.get("ty"), p_.c[0].get("ty"),
+                          "the high bits are shifted out" if lost else
+                          "a byte >= 0x80 makes the term negative and the widening conversion sets all higher bytes (decoded 64-bit constants with bit 31 set come back with 0xffffffff on top)"),
+                      line=n.line)
+    if nshift < 10:
+        raise AnalysisBroken("only %d shift terms found in the integer decoders" % nshift)
+
